@@ -1,5 +1,7 @@
 (* one case per line:  <size> <piece> <piece> ...   piece = '-' (empty) or letters
-   prints chunks '|'-separated, or E for ValueError *)
+   prints chunks '|'-separated, or E for ValueError;
+   a history:  H <op> ... ; <piece> ...   op = e<n> | d | n
+   prints one result per op (chunk, S = StopIteration, E = ValueError, . = None), then D and the drained items *)
 open Stream_x
 let rec pos_of_int n = if n = 1 then XH else if n land 1 = 0 then XO (pos_of_int (n lsr 1)) else XI (pos_of_int (n lsr 1))
 let n_of_int n = if n = 0 then N0 else Npos (pos_of_int n)
@@ -13,6 +15,14 @@ let () =
     let line = input_line stdin in
     match String.split_on_char ' ' line |> List.filter (fun x -> x <> "") with
     | [] -> print_endline ""
+    | "H" :: r ->
+      let rec split acc = function ";" :: t -> (List.rev acc, t) | x :: t -> split (x :: acc) t | [] -> (List.rev acc, []) in
+      let (ops, ps) = split [] r in
+      let op s = if s = "d" then ODisable else if s = "n" then ONext
+                 else OEnable (nat_of_int (int_of_string (String.sub s 1 (String.length s - 1)))) in
+      let (st, outs) = srun { mode = None; rest = List.map str_of ps } (List.map op ops) in
+      let so = function SChunk c -> show c | SStop -> "S" | SValueError -> "E" | SNone -> "." in
+      print_endline (String.concat " " (List.map so outs) ^ " D " ^ String.concat "|" (List.map show (sdrain st)))
     | sz :: ps ->
       let ps = List.map str_of ps in
       (match stream_buffered (nat_of_int (int_of_string sz)) ps with
